@@ -248,6 +248,9 @@ class SymbolFinder:
 			シンボル。未定義の場合はNone
 		"""
 		elems = ModuleDSN.expand_elements(domain_name)
+		if len(elems) == 0:
+			return None
+
 		for module_path in self.__library_paths:
 			raw = self.__find_raw_recursive(db, ModuleDSN.full_join(module_path, elems[0]), elems[1:])
 			if raw:
